@@ -77,6 +77,13 @@ func main() {
 			os.Exit(2)
 		}
 		os.Exit(mc.Drive(c, os.Args[3], os.Args[4], myVariant()))
+	case "cli":
+		// vcheck cli <wrgl-dir> <home> args...: run the real wrgl command tree in this process
+		// (used as a killable subprocess by the crash tier)
+		if len(os.Args) < 5 {
+			usage()
+		}
+		os.Exit(checks.RunCLI(os.Args[2], os.Args[3], os.Args[4:]))
 	case "inproc":
 		a := os.Args[2:]
 		if len(a) < 4 {
